@@ -18,6 +18,9 @@ from . import pkgworld as pw
 from .c06 import make_filter
 
 GX = list(range(2, 27, 2))
+# a second grid with the same number of nodes and the same end points but other interior nodes; every bin that overlaps a filter's
+# support still lies inside one band, so the convolved flux is 10^(E/4) on either grid
+GXB = [2, 3, 4, 5, 6, 7, 8, 9, 11, 14, 19, 22, 26]      # (positions of the bands differ from GX: weights binned for the other grid hit other bands)
 FX = [[4, 6, 8], [12, 14, 16], [20, 22, 24]]
 NAMES = ['mod_b', 'mod_c', 'mod_a']
 
@@ -51,8 +54,11 @@ def replay_one(col, bs, root, seed, bi):
         perm = rng.sample(range(nmod), nmod)
         names = [ALL[i] for i in perm]                           # parameter-table order
 
+        def grid_of(m):
+            return GXB if (fmt == 'perfile' and (perm[m] + bi) % 2) else GX
+
         def val(m, a, w):
-            band = band_of(GX[ng - 1 - w])
+            band = band_of(grid_of(m)[ng - 1 - w])
             ap = apq[a] if mode == 'dist' else 0
             if perm[m] == 3:
                 return 0.0 if band == dark - 1 else 10.0 ** (0.25 * (band + 1 + ap))
@@ -63,7 +69,8 @@ def replay_one(col, bs, root, seed, bi):
         if fmt == 'perfile':
             stored = [rng.choice(['asc', 'desc']) for _ in range(nmod)]
             pw.build_perfile(d, names, wav, aps, val, unc, stored=stored, aperture_dependent=(mode == 'dist'), logd_step=1.0001, par_values=pars,
-                             writer=(rng.choice(['lib', 'raw']) if apu == 'au' else 'lib'), ap_unit=apu)
+                             writer=(rng.choice(['lib', 'raw']) if apu == 'au' else 'lib'), ap_unit=apu,
+                             wav_of=lambda m: sorted(12.0 / g for g in grid_of(m)))
         else:
             pw.build_cube(d, names, wav, aps, val, unc, order=rng.choice(['asc', 'desc']), aperture_dependent=(mode == 'dist'), logd_step=1.0001, par_values=pars, ap_unit=apu)
         filts = []
